@@ -5,7 +5,8 @@ from core import *
 FIXTURE = os.path.join(VERIF, "selftest", "fixtures", "alias_fix.c")
 EXPECT = {"fix_stale_ptr": ("R-STALE", "stale:up"), "fix_clobber_order": ("R-CLOBBER", "clobber:v:w"),
           "fix_extent_carry": ("R-EXTENT", "overrun:w"), "fix_alias_good": None, "fix_alias_guarded": None,
-          "fix_constsrc_scratch": ("R-CONSTSRC", "constsrc:u"), "fix_constsrc_guarded": None}
+          "fix_constsrc_scratch": ("R-CONSTSRC", "constsrc:u"), "fix_constsrc_guarded": None,
+          "fix_view_alias": ("R-CLOBBER", "view-alias:v:w"), "fix_view_local": None}
 
 
 def run(prop="C05", tier="quick", rules=("R-STALE", "R-CLOBBER", "R-OVERLAP", "R-CONSTSRC")):
